@@ -1,2 +1,20 @@
-(* C09.  Theorems are added here as they are proved. *)
-From PJ.Model Require Import Base.
+(* C09 -- parsing is independent of how the byte source chunks its reads. *)
+From PJ.Model Require Import Base Terms Encoder Streams Decoder Source.
+From PJ.Proofs Require Import SourceProofs.
+
+(* For every byte string and EVERY read schedule (any sequence of short-read sizes, down to one
+   byte at a time) the header a non-seekable source yields is the first three bytes and the
+   parser sees the same stream; hence the parse equals that of the in-memory buffer and of a
+   seekable file. *)
+Theorem C09_header_any_schedule :
+  forall (sched : list nat) (b : list N), read_header 4 [] sched b = (firstn 3 b, skipn 3 b).
+Proof. exact read_header_any_schedule. Qed.
+Print Assumptions C09_header_any_schedule.
+
+Theorem C09_parse_independent_of_source :
+  forall (ig : integ) (grouped strict : bool) (sched : list nat) (b : list N),
+    parse_source ig grouped strict (Raw sched b) = parse_source ig grouped strict (Buffer b) /\
+    parse_source ig grouped strict (Seekable b) = parse_source ig grouped strict (Buffer b) /\
+    parse_source ig grouped strict (Buffer b) = parse_stream ig grouped strict b.
+Proof. exact parse_source_independent. Qed.
+Print Assumptions C09_parse_independent_of_source.
